@@ -96,6 +96,7 @@ func (r *Run) finish(res *Result) {
 	}
 	res.Log = s.Log
 	res.post = r.post
+	r.postPhase = true
 }
 
 func runCore(sc *Scenario, res *Result, keepLog bool) {
